@@ -2,6 +2,7 @@ package main
 
 import (
 	"strconv"
+	"strings"
 
 	"verifharness/internal/wire"
 )
@@ -191,17 +192,29 @@ func gen(stream string, seed uint64, n int, outp string) {
 					var ing []string
 					for _, p := range []uint32{80, 8080, 9000, 9090} {
 						if r.Chance(1, 2) {
-							proto := "tcp"
-							if r.Chance(1, 2) {
-								proto = "http"
-							}
-							ing = append(ing, strconv.Itoa(int(p))+":"+proto+":"+wire.B(r.Chance(1, 3)))
+							proto := wire.Pick(r, []string{"tcp", "http", "http", "tcp", "auto"})
+							// user TLS needs a protocol that says what is behind the TLS (HTTPS / TLS)
+							tls := proto != "auto" && r.Chance(1, 3)
+							ing = append(ing, strconv.Itoa(int(p))+":"+proto+":"+wire.B(tls)+":"+wire.B(r.Chance(1, 4)))
 						}
 					}
 					if len(ing) > 0 {
-						out.Line("ils", wire.Enc(ns), encLabels(labels), wire.EncList(ing))
+						out.Line("ils", wire.Enc(ns), encLabels(labels), wire.EncList(ing), wire.B(r.Chance(1, 3)))
 						break
 					}
+				}
+				if r.Chance(1, 4) {
+					// the composed client decision end to end; mostly an ordinary in-mesh service
+					kind := "normal"
+					if r.Chance(1, 3) {
+						kind = wire.Pick(r, []string{"noistio", "external", "passthrough", "ptdisabled"})
+					}
+					out.Line("cl", wire.Enc(ns), encLabels(labels), wire.Enc(wire.Pick(r, nsPool)), kind)
+					break
+				}
+				if r.Chance(1, 5) {
+					out.Line("ilh", wire.Enc(ns), encLabels(labels))
+					break
 				}
 				out.Line("il", wire.Enc(ns), encLabels(labels))
 			case "ambient":
@@ -227,7 +240,7 @@ func gen(stream string, seed uint64, n int, outp string) {
 						}
 					}
 					l := []string{"chk", wire.Enc(ns), encLabels(labels), strconv.Itoa(int(wire.Pick(r, queryPort))),
-						wire.B(r.Chance(4, 5)), wire.Pick(r, drToks), wire.Enc(client), wire.EncList(imported), wire.B(r.Chance(1, 8))}
+						wire.B(r.Chance(4, 5)), genDR(r), wire.Enc(client), wire.EncList(imported), wire.B(r.Chance(1, 8))}
 					out.Line(l...)
 					again = append(again, l)
 				}
@@ -246,4 +259,60 @@ func gen(stream string, seed uint64, n int, outp string) {
 			}
 		}
 	}
+}
+
+var drModes = []string{"DISABLE", "SIMPLE", "MUTUAL", "ISTIO_MUTUAL"}
+
+func genTP(r *wire.Rng) (string, string) {
+	tls, ports := "-", "-"
+	if r.Chance(1, 2) {
+		tls = wire.Pick(r, drModes)
+	}
+	if r.Chance(1, 2) {
+		var l []string
+		for _, p := range []int{80, 8080, 80} { // the service port of the cluster is 80; a duplicate entry tests "first wins"
+			if r.Chance(1, 2) {
+				m := "nil"
+				if r.Chance(3, 4) {
+					m = wire.Pick(r, drModes)
+				}
+				l = append(l, strconv.Itoa(p)+"="+m)
+			}
+		}
+		if len(l) > 0 {
+			ports = strings.Join(l, ";")
+		}
+	}
+	return tls, ports
+}
+
+// genDR: no rule (most often), a bare rule-level TLS mode, or a rule with port-level settings and subsets.
+func genDR(r *wire.Rng) string {
+	switch k := r.Intn(10); {
+	case k < 4:
+		return "nil"
+	case k < 6:
+		return wire.Pick(r, drModes)
+	}
+	tls, ports := genTP(r)
+	subsets := "-"
+	var names []string
+	if r.Chance(2, 3) {
+		var l []string
+		for _, n := range []string{"v1", "v2"} {
+			if r.Chance(2, 3) {
+				st, sp := genTP(r)
+				l = append(l, n+"~"+st+"~"+sp)
+				names = append(names, n)
+			}
+		}
+		if len(l) > 0 {
+			subsets = strings.Join(l, "+")
+		}
+	}
+	sel := "-"
+	if r.Chance(1, 2) {
+		sel = wire.Pick(r, append(names, "v3")) // sometimes a subset the rule does not define
+	}
+	return tls + "/" + ports + "/" + subsets + "/" + sel
 }
